@@ -4,6 +4,7 @@ package main
 
 import (
 	"fmt"
+	"os"
 	"go/constant"
 	"go/token"
 	"go/types"
@@ -267,7 +268,16 @@ func (f *Frame) execInstr(ns *nodeState, ins ssa.Instruction) {
 	case *ssa.DebugRef:
 		if obj := x.Object(); obj != nil {
 			if _, isVar := obj.(*types.Var); isVar {
-				ns.names[obj.Name()] = f.operand(ns.env, x.X)
+				val := f.operand(ns.env, x.X)
+				if f.isTop && !x.IsAddr {
+					if vw, ok := ex.views[obj.Name()]; ok {
+						if os.Getenv("GVC_DEBUG") != "" {
+							fmt.Fprintf(os.Stderr, "DebugRef %s X=%s (%T) at %s blk %d\n", obj.Name(), x.X.Name(), x.X, f.pos(x.Pos()), x.Block().Index)
+						}
+						f.viewEvent(ns, obj.Name(), vw, x.X, val)
+					}
+				}
+				ns.names[obj.Name()] = val
 			}
 		}
 	case *ssa.Alloc:
@@ -464,6 +474,114 @@ func (f *Frame) execInstr(ns *nodeState, ins ssa.Instruction) {
 		f.makeChan(ns, x)
 	default:
 		ex.fail("instruction %T (%s) in %s", ins, ins, f.fn.Name())
+	}
+}
+
+// viewEvent maintains the ghost set/pos arrays of a viewed slice variable at a DebugRef (definition or use).
+func (f *Frame) viewEvent(ns *nodeState, name string, vw *viewCells, v ssa.Value, val Val) {
+	ex := f.ex
+	prev := ns.names[srcKey(name)].Src
+	defer func() { ns.names[srcKey(name)] = Val{Src: v} }()
+	if os.Getenv("GVC_DEBUG") != "" {
+		pn := "<nil>"
+		if prev != nil {
+			pn = prev.Name()
+		}
+		fmt.Fprintf(os.Stderr, "viewEvent %s: v=%s (%T) prev=%s dry=%d blk=%v\n", name, v.Name(), v, pn, ex.dry, ns.reach.S)
+	}
+	if prev == v {
+		return // a use
+	}
+	if c, isConst := v.(*ssa.Const); isConst && c.Value == nil {
+		// x/tools v0.29 attaches the zero value to the DebugRef of a `:=` declaration (the value before the
+		// store); the definition is picked up at the first use or at the phi that carries the variable
+		v = prev
+		return
+	}
+	if phi, ok := v.(*ssa.Phi); ok && phi.Comment == name {
+		return // bound by a phi: the ghost cells were merged / havocked with the state
+	}
+	keyOf := func(elem Term) Term {
+		k, ok := FieldByGoName(elem, vw.key)
+		if !ok {
+			ex.fail("ghost view %s: elements have no field %s", name, vw.key)
+		}
+		return k
+	}
+	addElems := func(set, pos Term, s Term, from Term, n int, base Term) (Term, Term) {
+		for i := 0; i < n; i++ {
+			el := Select(slArr(s), addT(from, IntLit64(int64(i), SInt)))
+			k := keyOf(el)
+			set = Store(set, k, TTrue)
+			pos = Store(pos, k, addT(base, IntLit64(int64(i), SInt)))
+		}
+		return set, pos
+	}
+	// append to the variable itself
+	if call, ok := v.(*ssa.Call); ok {
+		if b, isB := call.Call.Value.(*ssa.Builtin); isB && b.Name() == "append" && len(call.Call.Args) == 2 && (call.Call.Args[0] == prev) {
+			old := ex.viewOf(ns.st, f.operand(ns.env, call.Call.Args[0]))
+			add := ex.viewOf(ns.st, f.operand(ns.env, call.Call.Args[1]))
+			n := slLen(add)
+			if n.K == nil || n.K.Int64() > 8 {
+				ex.fail("ghost view %s: append of a non-constant number of elements", name)
+			}
+			set, pos := addElems(ns.st[vw.set], ns.st[vw.pos], add, IntLit64(0, SInt), int(n.K.Int64()), slLen(old))
+			ns.st[vw.set] = ex.vc.Define("gset_"+name, set)
+			ns.st[vw.pos] = ex.vc.Define("gpos_"+name, pos)
+			ex.markWritten(vw.set, -1)
+			ex.markWritten(vw.pos, -1)
+			return
+		}
+	}
+	// assignment from another viewed variable
+	for other, ow := range ex.views {
+		if other != name && ns.names[srcKey(other)].Src == v {
+			ns.st[vw.set] = ns.st[ow.set]
+			ns.st[vw.pos] = ns.st[ow.pos]
+			ex.markWritten(vw.set, -1)
+			ex.markWritten(vw.pos, -1)
+			return
+		}
+	}
+	// a fresh definition: must have a small constant length
+	cur := ex.viewOf(ns.st, val)
+	n := slLen(cur)
+	if n.K == nil || n.K.Int64() > 8 {
+		ex.fail("ghost view %s: defined from a slice of non-constant length", name)
+	}
+	set := ex.vc.zeroTerm(vw.set.Sort)
+	pos := ns.st[vw.pos]
+	set, pos = addElems(set, pos, cur, IntLit64(0, SInt), int(n.K.Int64()), IntLit64(0, SInt))
+	ns.st[vw.set] = ex.vc.Define("gset_"+name, set)
+	ns.st[vw.pos] = ex.vc.Define("gpos_"+name, pos)
+	ex.markWritten(vw.set, -1)
+	ex.markWritten(vw.pos, -1)
+}
+
+// syncViewsForPhis: before the phis of blk are bound along the edge from pred pi, make the ghost cells of every
+// viewed variable carried by such a phi describe the incoming value.
+func (f *Frame) syncViewsForPhis(ns *nodeState, blk *ssa.BasicBlock, pi int) {
+	if !f.isTop || len(f.ex.views) == 0 {
+		return
+	}
+	for _, ins := range blk.Instrs {
+		phi, ok := ins.(*ssa.Phi)
+		if !ok {
+			break
+		}
+		vw, isView := f.ex.views[phi.Comment]
+		if !isView {
+			continue
+		}
+		in := phi.Edges[pi]
+		if ns.names[srcKey(phi.Comment)].Src == in {
+			continue
+		}
+		if _, isConst := in.(*ssa.Const); isConst {
+			continue
+		}
+		f.viewEvent(ns, phi.Comment, vw, in, f.operand(ns.env, in))
 	}
 }
 
